@@ -19,7 +19,8 @@ import rcache_rules as R
 CID = "C12"
 AREA = "rcache"
 VO = ["props/C12.vo", "rcache/PyList.vo", "rcache/RCacheModel.vo", "rcache/RCacheSpec.vo",
-      "rcache/RQueryModel.vo", "rcache/RQuerySpec.vo", "rcache/RQueryThm.vo"]
+      "rcache/RQueryModel.vo", "rcache/RQuerySpec.vo", "rcache/RQueryThm.vo", "rcache/RCacheThm.vo",
+      "rcache/RCacheQuery.vo"]
 
 MODES = ["uncached", "uncached_mid", "cached_fresh", "cached_mid", "cached_shared", "cached_complete"]
 
@@ -185,14 +186,20 @@ def queries(L, r, budget):
 
 def recipes(tier, r):
     out = []
-    for n in range(0, 32):
+    # quick keeps the small scopes (all slices are enumerated only for small n anyway) and the lengths
+    # around the cache batch; thorough runs every length 0..31 and more variant lengths
+    for n in (list(range(0, 13)) + [19, 20, 21, 30, 31] if tier == "quick" else range(0, 32)):
         out.append(R.daily(n))
-    for n in (0, 1, 2, 5, 9, 10, 11, 20, 21):
-        for v in (0, 1, 2):
-            out.append(R.set_of_length(n, v))
-    nrand = 40 if tier == "quick" else 1500
-    for _ in range(nrand):
-        out.append(R.random_recipe(r))
+    for n in ((0, 1, 2, 10, 11, 21) if tier == "quick" else (0, 1, 2, 5, 9, 10, 11, 20, 21)):
+        out += R.variants_of_length(n)[1:]
+    # aware rules (fixed-offset zones): same queries with aware arguments
+    out.append(R.aware(R.daily(12), "utc"))
+    out.append(R.aware(R.set_of_length(11, 0), 19800))
+    out.append(R.aware(R.setpos_rule(5, True), -34200))
+    nrand = 20 if tier == "quick" else 1500
+    for k in range(nrand):
+        rec = R.random_recipe(r)
+        out.append(R.aware(rec, r.choice(["utc", 3600, -18000])) if k % 10 == 9 else rec)
     return out
 
 
@@ -237,13 +244,80 @@ def check_primitives(o, verdict, stats):
     stats["primitive_disagreements"] = bad
 
 
+# ------------------------------------------------------------------ line coverage of the anchored methods
+
+def anchored_coverage(r, tier="quick"):
+    """line coverage (sys.settrace) of rrulebase's methods under this check's query set, measured on a
+    few rules: a generator that stopped exercising a branch shows up as a missed line"""
+    from dateutil import rrule as rr
+    B = rr.rrulebase
+    names = ["__init__", "__iter__", "_invalidate_cache", "_iter_cached", "__getitem__", "__contains__",
+             "count", "before", "after", "xafter", "between"]
+    codes = {}
+    for nme in names:
+        f = getattr(B, nme)
+        f = getattr(f, "__wrapped__", f)
+        codes[f.__code__] = nme
+    # xafter's lambdas are nested code objects
+    for c in list(codes):
+        for k in c.co_consts:
+            if hasattr(k, "co_code"):
+                codes[k] = codes[c] + ".<lambda>"
+    executable = set()
+    for c in codes:
+        for (_a, _b, ln) in c.co_lines():
+            if ln is not None and ln != c.co_firstlineno:
+                executable.add(ln)
+    hit = set()
+
+    def local(frame, event, arg):
+        if event == "line":
+            hit.add(frame.f_lineno)
+        return local
+
+    def glob(frame, event, arg):
+        return local if frame.f_code in codes else None
+    recs = [R.daily(12), R.daily(0), R.set_of_length(11, 0), R.until_rule(21)]
+    if tier == "quick":
+        recs = [R.daily(11), R.set_of_length(2, 0)]
+    sys.settrace(glob)
+    try:
+        for rec in recs:
+            L = [R.to_int(x) for x in R.build(rec, False)]
+            qs, _full = queries(L, r, 120 if tier == "quick" else 300)
+            for cache in (False, True):
+                shared = R.build(rec, cache)
+                for q in qs:
+                    impl_query(R.build(rec, cache), q)
+                    it = iter(R.build(rec, cache))
+                    next(it, None)
+                    impl_query(shared, q)
+            two = R.build(rec, True)             # two live iterators: the second finds the cache complete
+            a, b = iter(two), iter(two)
+            next(b, None)
+            list(a)
+            list(b)
+            list(two)                            # __iter__ fast path
+            s = R.build(R.set_of_length(3, 0), True)
+            list(s)
+            s.rdate(R.to_dt(R.T0 + 5))      # _invalidate_cache on a used cached set
+            list(s)
+    finally:
+        sys.settrace(None)
+    missed = sorted(executable - hit)
+    return {"file": "src/dateutil/rrule.py", "methods": names, "executable_lines": len(executable),
+            "lines_hit": len(executable & hit), "missed_lines": missed,
+            "note": "the release() inside _invalidate_cache is only reachable when a mutator runs while the lock "
+                    "is held (another thread in its fill step, or the pre-bb46216 leak)"}
+
+
 # ------------------------------------------------------------------ replace()
 
 def check_replace(r, tier, verdict, stats):
     """replace(**kw) == constructor(original arguments + kw): differential only (the constructor's
     normalisation belongs to C01's model)"""
     from dateutil import rrule as rr
-    n = 60 if tier == "quick" else 2000
+    n = 40 if tier == "quick" else 2000
     bad = done = 0
     for _ in range(n):
         kw = R.random_rrule_kw(r)
@@ -295,16 +369,19 @@ def run_rule(recipe, r, o, tier, verdict, stats, samples):
     Ldt = list(R.build(recipe, False))
     L = [R.to_int(x) for x in Ldt]
     n = len(L)
-    if any(x.microsecond or x.tzinfo is not None for x in Ldt) or any(a >= b for a, b in zip(L, L[1:])):
+    if any(x.microsecond for x in Ldt) or any(a >= b for a, b in zip(L, L[1:])) or \
+            any((x.tzinfo is None) != (recipe.get("tz") is None) for x in Ldt):
         stats["rules_not_strictly_increasing"] += 1
         verdict.violation({"kind": "listed sequence is not strictly increasing (outside the theorems' hypothesis)",
                            "input": {"recipe": recipe}, "L": L}, concrete=False)
         return
-    budget = 1200 if tier == "quick" else 4000
+    budget = 800 if tier == "quick" else 4000
     qs, sl_full = queries(L, r, budget)
     stats["rules"] += 1
     stats["len_hist"][str(min(n, 40))] = stats["len_hist"].get(str(min(n, 40)), 0) + 1
     stats["kind_hist"][recipe["kind"]] += 1
+    if recipe.get("tz") is not None:
+        stats["aware_rules"] = stats.get("aware_rules", 0) + 1
     if sl_full:
         stats["rules_with_all_slices"] += 1
     want = [py_spec(L, q) for q in qs]
@@ -455,14 +532,39 @@ def main():
                     recs.append(json.loads(line)["recipe"])
         stats["regression_corpus_rules"] = len(recs)
         recs += recipes(tier, r)
-        limit = 150 if tier == "quick" else 1080
+        limit = 75 if tier == "quick" else 900
         for recipe in recs:
             if time.time() - t0 > limit:
                 stats["stopped_by_time_budget"] = True
                 break
-            run_rule(recipe, r, o, tier, verdict, stats, samples)
+            try:
+                with R.watchdog(300):
+                    run_rule(recipe, r, o, tier, verdict, stats, samples)
+            except R.Timeout:
+                stats["rule_timeouts"] = stats.get("rule_timeouts", 0) + 1
+                verdict.violation({"kind": "a query never completes (rule not finished within 300 s)",
+                                   "input": {"recipe": recipe, "query": ["count"], "mode": "uncached"}})
+                try:
+                    o.p.kill()
+                except Exception:
+                    pass
+                o = C.Oracle(AREA)      # the line protocol may be out of step after the interrupt
+                if stats["rule_timeouts"] >= 2:
+                    break
+            except Exception as ex:
+                # the implementation raised outside a query (while listing / iterating the rule)
+                stats["rule_level_exceptions"] = stats.get("rule_level_exceptions", 0) + 1
+                verdict.violation({"kind": "listing or iterating the rule raised %s" % type(ex).__name__,
+                                   "input": {"recipe": recipe, "query": ["count"], "mode": "cached_complete"},
+                                   "exception": repr(ex)[:300]})
+                if not isinstance(ex, (IndexError, TypeError, ValueError, RuntimeError, StopIteration)):
+                    raise
         o.close()
         check_replace(r, tier, verdict, stats)
+        try:
+            stats["coverage"] = anchored_coverage(r, tier)
+        except Exception as ex:
+            stats["coverage"] = {"error": repr(ex)[:200]}
     else:
         verdict.violation({"kind": "no oracle: the extracted model could not be built", "input": None,
                            "log_tail": (build_err.log if build_err else "")[-2000:]}, concrete=False)
@@ -491,25 +593,28 @@ def main():
         "input_distribution": {"rules": stats["rules"], "by_kind": stats["kind_hist"],
                                "by_length": stats["len_hist"], "queries_by_kind": stats["q_hist"],
                                "evaluations_by_mode": stats["mode_hist"],
-                               "rules_with_all_slices_enumerated": stats["rules_with_all_slices"]},
+                               "rules_with_all_slices_enumerated": stats["rules_with_all_slices"],
+                               "tz_aware_rules": stats.get("aware_rules", 0)},
         "impl_vs_list_spec_disagreements": stats["impl_vs_listspec"],
         "impl_vs_model_disagreements": stats["impl_vs_model"],
         "coq_spec_vs_python_list_spec_disagreements": stats["coqspec_vs_listspec"],
         "model_vs_coq_spec_disagreements": stats["model_vs_coqspec"],
+        "anchored_line_coverage": stats.get("coverage"),
         "primitive_cases_vs_cpython": stats.get("primitive_cases", 0),
         "primitive_disagreements": stats.get("primitive_disagreements", 0),
         "replace_cases_differential_only": stats.get("replace_cases", 0),
         "replace_disagreements": stats.get("replace_disagreements", 0),
         "only_differential_tested": ["replace() (constructor normalisation is C01's model)",
                                      "count() publication of _len by rrule._iter/rruleset._iter",
-                                     "tz-aware rules, non-int / non-slice subscripts"],
+                                     "DST zones (aware rules use fixed-offset zones), non-int / non-slice subscripts"],
         "partial_theorems": [t for t in props["theorems"] if "partial" in t],
         "known_findings_hit": verdict.known_hits,
     }
     C.write_evidence(CID, tier, t0, props, cov,
                      ["CPython list indexing/slicing and itertools.islice are modelled in coq/rcache/PyList.v "
                       "(compared with the running CPython exhaustively for lengths 0..5 on every run)",
-                      "datetime comparison is the integer order of whole seconds since 1970 (naive datetimes)",
+                      "datetime comparison is the integer order of whole seconds since 1970 (naive datetimes; aware "
+                      "datetimes of one fixed-offset zone by their wall reading)",
                       "iter(self) on the generator path yields list(rule) (C11 for cached rules)"],
                      len(verdict.violations))
     print("C12 %s: obligations %d/%d, %d rules, %d queries, %d evaluations, impl/list-spec diff %d, impl/model diff %d, %.1fs"
